@@ -63,7 +63,8 @@ Inductive rule :=
     (* first branch whose condition evaluates to 1.0; bounded = the scan stops at the last branch
        (and throws SymEngineException); not bounded = the closure indexes past the vectors *)
 | RContains                         (* Contains(expr, Interval): the closure of lambda_double.h *)
-| RSymbol                           (* lambda: position in `symbols`, else cse_intermediate_fns_map *)
+| RSymbol (map_first : bool)        (* lambda: position in `symbols` / cse_intermediate_fns_map;
+                                       map_first: the CSE map is searched before the inputs *)
 | RInfty                            (* lambda: +-infinity, SymEngineException for zoo *)
 | RNaN                              (* lambda: signaling_NaN() *)
 | RPass                             (* UnevaluatedExpr: apply(arg) *)
@@ -127,7 +128,8 @@ Definition rule_eqb (a b : rule) : bool :=
   | RBoolFold o1 f1, RBoolFold o2 f2 => bfun_eqb o1 o2 && Nat.eqb f1 f2
   | RBoolAtom, RBoolAtom => true
   | RPiecewise b1, RPiecewise b2 => Bool.eqb b1 b2
-  | RContains, RContains | RSymbol, RSymbol | RInfty, RInfty | RNaN, RNaN | RPass, RPass
+  | RSymbol a1, RSymbol a2 => Bool.eqb a1 a2
+  | RContains, RContains | RInfty, RInfty | RNaN, RNaN | RPass, RPass
   | RWrapper, RWrapper => true
   | RThrow c1, RThrow c2 => N.eqb c1 c2
   | _, _ => false
